@@ -98,8 +98,29 @@ def plain_lemma_selftest(check):
         check.engine_error(f"PLAIN/blank lemma fails on {bad} small cases")
 
 
+def derived(check, tier, seed):
+    """slicing / + / * / join contracts at run time on derived values (chains of operations), not only on freshly built ones"""
+    from bounded.derived import derived_values
+    n = 6000 if tier == "thorough" else 700
+    s = Suite(check, "C06.derived", f"{n} values at the end of chains of <= 4 public operations: every int index, a sample of slices, + with a str "
+              "and with itself, * 2, join - sidecar contracts at run time + memo coherence of the results", bound="chains <= 4 operations", exhaustive=False)
+    for k, v in enumerate(derived_values(seed + 1, n)):
+        L = len(v.s)
+        for i in (0, L - 1, -1, L, -L - 1):
+            s.contract_case(F.getitem, dict(self=v, index=i), key=("d", k, i))
+        for a, b in ((None, None), (1, None), (None, -1), (1, L), (-2, L + 1), (L, None), (0, 1)):
+            s.contract_case(F.getitem, dict(self=v, index=slice(a, b)), key=("d", k, a, b))
+        s.contract_case(F.add, dict(self=v, other="!"), key=("d", k, "add"))
+        s.contract_case(F.add, dict(self=v, other=v), key=("d", k, "addself"))
+        s.contract_case(F.radd, dict(self=v, other="!"), key=("d", k, "radd"))
+        s.contract_case(F.mul, dict(self=v, other=2), key=("d", k, "mul"))
+        s.contract_case(F.join, dict(self=v, iterable=[v, "x", v]), key=("d", k, "join"))
+    s.done()
+
+
 def run(check, tier, seed):
     plain_lemma_selftest(check)
     for c in CONTRACTS:
         verify(c, tier, check)
     bounded(check, tier)
+    derived(check, tier, seed)
